@@ -43,7 +43,7 @@ Qed.
 (* ---------- Get / GetTop / dump ---------- *)
 
 Lemma top_pre r pre l lim : Rr r (pre ++ l) lim -> top r = len pre + len l.
-Proof. intros [Ht _ _ _ _]. rewrite Ht, len_app. reflexivity. Qed.
+Proof. intros [Ht _ _ _ _ _]. rewrite Ht, len_app. reflexivity. Qed.
 
 Lemma apiGetTop_ok r pre l lim : Rr r (pre ++ l) lim -> apiGetTop r (len pre) = len l.
 Proof. intros HR. unfold apiGetTop. rewrite (top_pre _ _ _ _ HR). lia. Qed.
@@ -98,7 +98,7 @@ Lemma apiSetTop_ok r pre l lim idx :
   exists r', apiSetTop r (len pre) idx = AOk r' /\ Rr r' (pre ++ L_settop l idx) lim.
 Proof.
   intros HR Hidx Hn. pose proof (top_pre _ _ _ _ HR) as Ht. pose proof (len_nonneg pre). pose proof (len_nonneg l).
-  pose proof HR as [_ Hcap _ Hlim _].
+  pose proof HR as [_ Hcap Hlc _ Hlim _].
   assert (Hb : len pre <= lim) by lia.
   unfold apiSetTop, indexToReg, L_settop. cbn [aneed] in Hn.
   destruct (idx >? 0) eqn:E1.
@@ -138,7 +138,7 @@ Lemma apiReplace_ok r pre l lim idx v :
   exists r', apiReplace r (len pre) idx v = AOk r' /\ Rr r' (pre ++ L_replace l idx v) lim.
 Proof.
   intros HR Hidx. pose proof (top_pre _ _ _ _ HR) as Ht. pose proof (len_nonneg pre). pose proof (len_nonneg l).
-  pose proof HR as [_ Hcap _ Hlim _].
+  pose proof HR as [_ Hcap Hlc _ Hlim _].
   unfold apiReplace, L_replace, validIdx, absIndex.
   destruct (idx >? 0) eqn:E1.
   - destruct (len pre + idx - 1 <? top r) eqn:E2.
@@ -177,7 +177,7 @@ Qed.
 Lemma popLoop_ok pre : forall k r l lim, Rr r (pre ++ l) lim ->
   if Z.of_nat k <=? len l
   then exists r', popLoop r (len pre) k = AOk r' /\ Rr r' (pre ++ firstn (Z.to_nat (len l - Z.of_nat k)) l) lim
-  else exists r', popLoop r (len pre) k = ARaised r' /\ Rr r' (pre ++ [Some VMsg]) (Z.max lim (len pre + 1)).
+  else exists r', popLoop r (len pre) k = ARaised r' /\ Rr1 r' (pre ++ [Some VMsg]) lim.
 Proof.
   induction k as [|k IH]; intros r l lim HR; pose proof (len_nonneg l) as Hl0; pose proof (len_nonneg pre).
   - destruct (Z.of_nat 0 <=? len l) eqn:E; [|lia]. exists r. split; [reflexivity|].
@@ -208,7 +208,7 @@ Qed.
 Lemma apiPop_ok r pre l lim n : Rr r (pre ++ l) lim ->
   match L_pop l n with
   | (l1, false) => exists r', apiPop r (len pre) n = AOk r' /\ Rr r' (pre ++ l1) lim
-  | (l1, true) => exists r', apiPop r (len pre) n = ARaised r' /\ Rr r' (pre ++ l1) (Z.max lim (len pre + 1))
+  | (l1, true) => exists r', apiPop r (len pre) n = ARaised r' /\ Rr1 r' (pre ++ l1) lim
   end.
 Proof.
   intros HR. pose proof (len_nonneg l). unfold apiPop, L_pop.
@@ -309,7 +309,7 @@ Proof.
 Qed.
 
 Lemma removeLoop_nogrow : forall k r i,
-  0 <= i -> i + Z.of_nat k < top r -> top r <= cap r ->
+  0 <= i -> i + Z.of_nat k < top r -> top r <= limit r ->
   removeLoop r i k = Ok (with_arr_top r (shiftDown (arr r) i k) (top r)).
 Proof.
   induction k as [|k IH]; intros r i Hi Hk Hc; simpl removeLoop.
@@ -319,10 +319,10 @@ Proof.
     rewrite IH; unfold cap in *; simpl; rewrite ?len_upd; try lia. reflexivity.
 Qed.
 
-Lemma Rr_self r : 0 <= top r <= cap r -> (0 <= growBy r \/ maxSize r <= cap r) ->
-  Rr r (live r) (Z.max (cap r) (maxSize r)).
+Lemma Rr_self r : 0 <= top r <= limit r -> limit r <= cap r -> (0 <= growBy r \/ maxSize r <= limit r) ->
+  Rr r (live r) (Z.max (limit r) (maxSize r)).
 Proof.
-  intros Ht Hg. constructor; auto; try lia. unfold live. rewrite len_firstn. unfold cap in *. lia.
+  intros Ht Hlc Hg. constructor; auto; try lia. unfold live. rewrite len_firstn. unfold cap in *. lia.
 Qed.
 
 Lemma apiRemove_ok r pre l lim idx :
@@ -330,7 +330,7 @@ Lemma apiRemove_ok r pre l lim idx :
   exists r', apiRemove r (len pre) idx = AOk r' /\ Rr r' (pre ++ L_remove l idx) lim.
 Proof.
   intros HR Hidx. pose proof (top_pre _ _ _ _ HR) as Ht. pose proof (len_nonneg pre). pose proof (len_nonneg l).
-  pose proof HR as [_ Hcap Hlive Hlim Hg].
+  pose proof HR as [_ Hcap Hlc Hlive Hlim Hg].
   unfold apiRemove, L_remove.
   set (a := absIndex (len l) idx).
   assert (Hreg : indexToReg r (len pre) idx = if validIdx (len l) idx then len pre + a - 1
@@ -361,8 +361,7 @@ Proof.
     rewrite removeLoop_nogrow by lia. cbn [bind].
     set (r2 := with_arr_top r (shiftDown (arr r) (len pre + a - 1) (Z.to_nat (top r - 1 - (len pre + a - 1)))) (top r)).
     assert (HR2 : Rr r2 (live r2) lim).
-    { rewrite <- Hlim. replace (cap r) with (cap r2) by (unfold r2, cap; simpl; apply shiftDown_len).
-      replace (maxSize r) with (maxSize r2) by reflexivity.
+    { rewrite <- Hlim. change (limit r) with (limit r2). change (maxSize r) with (maxSize r2).
       apply Rr_self; unfold r2, cap in *; simpl; rewrite ?shiftDown_len; lia. }
     destruct (SetTop_ok r2 (live r2) lim (top r - 1) HR2) as (r' & Hs & HR'); [lia|].
     rewrite Hs. exists r'. split; [reflexivity|].
@@ -388,8 +387,7 @@ Lemma astep_sim r pre l lim o :
   Rr r (pre ++ l) lim -> aop_dom (len l) o = true -> aneed (len pre) (len l) o <= lim ->
   match L_step l o with
   | (l1, ret, false) => exists r1, astep r (len pre) o = (AOk r1, ret) /\ Rr r1 (pre ++ l1) lim
-  | (l1, ret, true) => exists r1, astep r (len pre) o = (ARaised r1, ret) /\
-                                  Rr r1 (pre ++ l1) (Z.max lim (len pre + 1))
+  | (l1, ret, true) => exists r1, astep r (len pre) o = (ARaised r1, ret) /\ Rr1 r1 (pre ++ l1) lim
   end.
 Proof.
   intros HR Hd Hn. destruct o as [v|n|idx|idx|v idx|idx|idx v|]; cbn [L_step astep aop_dom aneed] in *.
@@ -409,21 +407,33 @@ Qed.
 Lemma api_refines_list_lemma : forall ops r pre l lim,
   Rr r (pre ++ l) lim -> L_dom l ops = true -> L_fits (len pre) lim l ops = true ->
   fst (arun r (len pre) ops) = fst (L_run l ops) /\
-  exists lim', lim <= lim' /\ Rr (snd (arun r (len pre) ops)) (pre ++ snd (L_run l ops)) lim'.
+  Rr1 (snd (arun r (len pre) ops)) (pre ++ snd (L_run l ops)) lim.
 Proof.
   induction ops as [|o t IH]; intros r pre l lim HR Hd Hf; cbn [arun L_run L_dom L_fits] in *.
-  - simpl. split; [reflexivity|]. exists lim. split; [lia|exact HR].
+  - simpl. split; [reflexivity|]. apply Rr_Rr1. exact HR.
   - apply andb_prop in Hd as [Hd1 Hd2]. apply andb_prop in Hf as [Hf1 Hf2].
     pose proof (astep_sim r pre l lim o HR Hd1 ltac:(lia)) as H.
     destruct (L_step l o) as [[l1 ret] [|]].
     + destruct H as (r1 & Hs & HR1). rewrite Hs. simpl.
-      rewrite (apiGetTop_ok _ _ _ _ HR1), (dump_ok _ _ _ _ HR1).
-      split; [reflexivity|]. exists (Z.max lim (len pre + 1)). split; [lia|exact HR1].
+      assert (Hgt : apiGetTop r1 (len pre) = len l1).
+      { unfold apiGetTop. destruct HR1 as [Ht _ _ _ _ _ _]. rewrite Ht, len_app. lia. }
+      split; [|exact HR1]. f_equal. f_equal; [exact Hgt|].
+      (* the dump of a state with the message in flight *)
+      unfold dump, zseq. rewrite Hgt. replace (Z.to_nat (len l1)) with (length l1) by (unfold len; lia).
+      apply map_seq_rd. intros j Hj. change (Z.of_nat 1) with 1.
+      pose proof HR1 as [Ht Hc Htl Hlc Hl _ _].
+      unfold apiGet. destruct (1 + j >? 0) eqn:E; [|lia].
+      rewrite len_app in Ht. pose proof (len_nonneg pre).
+      destruct (len pre + (1 + j) - 1 <? top r1) eqn:E2; [|lia].
+      unfold Get, cap in *. destruct ((len pre + (1 + j) - 1 <? 0) || (len pre + (1 + j) - 1 >=? len (arr r1))) eqn:E3; [lia|].
+      cbn [getOr]. replace (rd (arr r1) (len pre + (1 + j) - 1)) with (rd (live r1) (len pre + (1 + j) - 1)).
+      * rewrite Hl. replace (len pre + (1 + j) - 1) with (len pre + j) by lia. apply rd_pre_l. lia.
+      * unfold live. rewrite rd_firstn. destruct (len pre + (1 + j) - 1 <? top r1) eqn:E4; [reflexivity|lia].
     + destruct H as (r1 & Hs & HR1). rewrite Hs.
-      destruct (IH r1 pre l1 lim HR1 Hd2 Hf2) as (H1 & lim' & Hl & HR').
+      destruct (IH r1 pre l1 lim HR1 Hd2 Hf2) as (H1 & HR').
       destruct (arun r1 (len pre) t) as [tt rf]. destruct (L_run l1 t) as [lt lf]. simpl in *.
       rewrite (apiGetTop_ok _ _ _ _ HR1), (dump_ok _ _ _ _ HR1). subst tt.
-      split; [reflexivity|]. exists lim'. split; [lia|exact HR'].
+      split; [reflexivity|exact HR'].
 Qed.
 
 (* SetTop on the registry: nil-extends or truncates the live list, and the cells it drops are cleared *)
@@ -438,7 +448,7 @@ Proof.
   unfold SetTop in Hs. destruct (t <? 0) eqn:E; [lia|].
   destruct (checkSize_ok r l lim t HR) as (r1 & Ecs & HR1 & Hc1 & Ht1 & _ & _); [lia|].
   rewrite Ecs in Hs. cbn [bind] in Hs. inversion Hs; subst r'. clear Hs.
-  pose proof HR1 as [Ht1' Hcc _ _ _]. unfold cap in *. cbn [arr with_arr_top].
+  pose proof HR1 as [Ht1' Hcc Hlc1 _ _ _]. unfold cap in *. cbn [arr with_arr_top].
   split; intros i Hi; rd_norm; cases_if; try lia; reflexivity.
 Qed.
 
